@@ -22,7 +22,7 @@ import (
 // without passing the head of the loop that contains both.
 func SeenOrder(p *load.Program, run *report.Run) {
 	const rule = "inputs-looked-up-before-output-marked"
-	run.Rule(rule, "in package circuit: in every function that calls both Seen.Get and Seen.Set inside one loop, no Seen.Get call is reachable from a Seen.Set call without passing the header of the innermost loop containing both (helpers that are handed the table are treated as the calls they make); with built-in examples")
+	run.Rule(rule, "in package circuit: in every function that calls both Seen.Get and Seen.Set inside one loop, no Seen.Get call is reachable from a Seen.Set call without passing the header of the innermost loop containing both (helpers that are handed the table are treated as the calls they make; a helper that is handed the table and does both outside any common loop is one iteration as a whole); with built-in examples")
 	var fns []*ssa.Function
 	for _, fn := range p.AllFunctions() {
 		if fn.Pkg == nil || fn.Pkg.Pkg.Path() != load.Module+"/circuit" || fn.Blocks == nil || fn.Synthetic != "" || strings.HasSuffix(p.Fset.Position(fn.Pos()).Filename, "_test.go") {
@@ -53,13 +53,26 @@ func SeenOrder(p *load.Program, run *report.Run) {
 		return
 	}
 	g, b := seenOrderCheck(look("parseGood")), seenOrderCheck(look("parseBad"))
+	var hg, hb seenOrderVerdict
+	for _, f := range exampleFuncsOf(look, "parseGood") {
+		switch f.Name() {
+		case "define":
+			hg = seenOrderCheck(f)
+		case "defineBad":
+			hb = seenOrderCheck(f)
+		}
+	}
+	if !hg.applies || hg.why != "" || !hb.applies || hb.why == "" {
+		run.Undecided(rule, "built-in example", "", fmt.Sprintf("the rule misclassifies the helpers of its built-in example (%v %q / %v %q)", hg.applies, hg.why, hb.applies, hb.why))
+		return
+	}
 	if !g.applies || g.why != "" || !b.applies || b.why == "" {
 		run.Undecided(rule, "built-in example", "", fmt.Sprintf("the rule misclassifies its built-in example (%v %q / %v %q)", g.applies, g.why, b.applies, b.why))
 		return
 	}
-	run.Count("seen-order-examples", 2)
+	run.Count("seen-order-examples", 4)
 	run.OK(rule, "built-in examples", "", "inputs looked up first accepted; output marked first reported")
-	run.Floor("seen-order-examples", 2)
+	run.Floor("seen-order-examples", 4)
 }
 
 type seenOrderVerdict struct {
@@ -87,7 +100,7 @@ func seenOrderCheck(fn *ssa.Function) (out seenOrderVerdict) {
 			if callee.Name() == "Get" || callee.Name() == "Set" {
 				return callee.Name()
 			}
-			return ""
+			// another method of the table is a helper that is handed it
 		}
 		// a helper of the package that is handed the table
 		if depth < 2 && callee.Blocks != nil && callee.Pkg == fn.Pkg {
@@ -183,6 +196,29 @@ func seenOrderCheck(fn *ssa.Function) (out seenOrderVerdict) {
 		}
 		return hs
 	}
+	// a helper that is handed the table and does the lookups and the marking of one gate outside any common
+	// loop: its whole body is one iteration
+	helperMode := false
+	for _, prm := range fn.Params {
+		if strings.HasSuffix(strings.TrimPrefix(prm.Type().String(), "*"), "Seen") {
+			helperMode = true
+		}
+	}
+	if helperMode {
+		for _, s := range sets {
+			for _, g := range gets {
+				hg := map[*ssa.BasicBlock]bool{}
+				for _, h := range headerOf(g.ins.Block()) {
+					hg[h] = true
+				}
+				for _, h := range headerOf(s.ins.Block()) {
+					if hg[h] {
+						helperMode = false
+					}
+				}
+			}
+		}
+	}
 	for _, s := range sets {
 		for _, g := range gets {
 			// innermost common loop header
@@ -197,7 +233,7 @@ func seenOrderCheck(fn *ssa.Function) (out seenOrderVerdict) {
 					common = h
 				}
 			}
-			if common == nil {
+			if common == nil && !helperMode {
 				continue
 			}
 			out.applies = true
@@ -262,6 +298,41 @@ func parseGood(lines [][3]int, seen Seen) error {
 			}
 		}
 		if err := seen.Set(l[2]); err != nil {
+			return err
+		}
+	}
+	return nil
+}
+
+func (s Seen) define(l [3]int) error {
+	for _, in := range l[:2] {
+		ok, err := s.Get(in)
+		if err != nil || !ok {
+			return failure{}
+		}
+	}
+	return s.Set(l[2])
+}
+
+func (s Seen) defineBad(l [3]int) error {
+	if err := s.Set(l[2]); err != nil {
+		return err
+	}
+	for _, in := range l[:2] {
+		ok, err := s.Get(in)
+		if err != nil || !ok {
+			return failure{}
+		}
+	}
+	return nil
+}
+
+func parseVia(lines [][3]int, seen Seen) error {
+	for _, l := range lines {
+		if err := seen.define(l); err != nil {
+			return err
+		}
+		if err := seen.defineBad(l); err != nil {
 			return err
 		}
 	}
